@@ -19,12 +19,15 @@ import (
 	"bytes"
 	"context"
 	"fmt"
+	"net/http"
+	"net/http/httptest"
 	"os"
 	"path/filepath"
 	"runtime"
 	"sort"
 	"strconv"
 	"strings"
+	"sync"
 	"syscall"
 	"time"
 
@@ -723,11 +726,21 @@ const healDamageKinds = 14
 
 type healCase struct {
 	OracleOnly bool // too large for the model
-	Class      string
-	Signed     hTree // relative to the target
-	Damaged    hTree // relative to base ("t0/..." and aside dirs); no "t0" key = target missing
-	Damages    []string
-	Procs      []int
+	// Where: location of the archive below the case's work directory ("" = "build.zip"); the
+	// first component is also appended to the name of the directory that holds the target.
+	// Legal file names that a parser of the healer spec "archive,<location>" or of the location
+	// itself could trip over (commas, blanks, '?', '#', ...).
+	Where string
+	// Loc: how the healer spec names the archive: "" = absolute path, "rel" = path relative to the
+	// working directory, "http" = URL of a loopback HTTP server (with commas in path and query)
+	Loc     string
+	Shape   string // generator parameters of a build too large to list in full
+	Hung    bool   // set by runHealCase: Validate did not return
+	Class   string
+	Signed  hTree // relative to the target
+	Damaged hTree // relative to base ("t0/..." and aside dirs); no "t0" key = target missing
+	Damages []string
+	Procs   []int
 }
 
 func validTree(signed hTree) hTree {
@@ -773,7 +786,10 @@ type healRun struct {
 // runHealCase signs the build, builds the archive, then for every GOMAXPROCS value recreates
 // the damaged tree, heals it, and judges the outcome.
 func runHealCase(c *Ctx, hc *healCase, idx int) error {
-	work := filepath.Join(c.Tmp, fmt.Sprintf("c06-%d", idx))
+	work, err := filepath.Abs(filepath.Join(c.Tmp, fmt.Sprintf("c06-%d", idx)))
+	if err != nil {
+		return err
+	}
 	defer removeAll(work)
 	validDir := filepath.Join(work, "valid")
 	if err := os.MkdirAll(validDir, 0o755); err != nil {
@@ -787,6 +803,15 @@ func runHealCase(c *Ctx, hc *healCase, idx int) error {
 		return err
 	}
 	zipPath := filepath.Join(work, "build.zip")
+	baseSuffix, archShown := "", "<work>/build.zip"
+	if hc.Where != "" {
+		archShown = "<work>/ar/" + hc.Where
+		zipPath = filepath.Join(work, "ar", filepath.FromSlash(hc.Where))
+		if err := os.MkdirAll(filepath.Dir(zipPath), 0o755); err != nil {
+			return err
+		}
+		baseSuffix = "-" + strings.SplitN(hc.Where, "/", 2)[0]
+	}
 	fw, err := os.Create(zipPath)
 	if err != nil {
 		return err
@@ -798,13 +823,32 @@ func runHealCase(c *Ctx, hc *healCase, idx int) error {
 	if err := fw.Close(); err != nil {
 		return err
 	}
+	location := zipPath
+	switch hc.Loc {
+	case "rel":
+		cwd, err := os.Getwd()
+		if err != nil {
+			return err
+		}
+		if location, err = filepath.Rel(cwd, zipPath); err != nil {
+			return err
+		}
+		archShown += " (relative to the working directory)"
+	case "http":
+		var done func()
+		if location, done, err = healServe(zipPath, idx); err != nil {
+			return err
+		}
+		defer done()
+		archShown += " served as " + location[strings.Index(location, "/c06-"):]
+	}
 	valid := validTree(hc.Signed)
 	isValid := len(hc.Damages) == 0
 
 	var runs []healRun
 	oracle := ""
 	for _, procs := range hc.Procs {
-		base := filepath.Join(work, fmt.Sprintf("base-%d", procs))
+		base := filepath.Join(work, fmt.Sprintf("base-%d%s", procs, baseSuffix))
 		if err := os.MkdirAll(base, 0o755); err != nil {
 			return err
 		}
@@ -820,12 +864,13 @@ func runHealCase(c *Ctx, hc *healCase, idx int) error {
 		}
 		prev := runtime.GOMAXPROCS(procs)
 		cls, msg := lib.WithDeadline(60*time.Second, func() error {
-			vc := &pwr.ValidatorContext{Consumer: lib.Quiet, HealPath: "archive," + zipPath}
+			vc := &pwr.ValidatorContext{Consumer: lib.Quiet, HealPath: "archive," + location}
 			return vc.Validate(context.Background(), target, sig)
 		})
 		runtime.GOMAXPROCS(prev)
 		run := healRun{Procs: procs, Class: cls, Msg: msg}
 		if cls == "hang" {
+			hc.Hung = true
 			run.Oracle = "Validate with an archive healer did not return within 60s"
 		} else {
 			if cls != "ok" {
@@ -925,9 +970,13 @@ func runHealCase(c *Ctx, hc *healCase, idx int) error {
 		}
 	}
 	cs := &lib.Case{Group: group, Class: hc.Class, Nontrivial: len(hc.Damages) >= 2 || hide,
-		Input: map[string]interface{}{"signed": hc.Signed.summary(), "damaged": hc.Damaged.summary(), "damages": hc.Damages,
-			"container": containerSummary(sig)},
+		Input: map[string]interface{}{"signed": clipList(hc.Signed.summary()), "damaged": clipList(hc.Damaged.summary()), "damages": clipList(hc.Damages),
+			"container": containerSummary(sig), "archive": archShown,
+			"target": fmt.Sprintf("<work>/base-<procs>%s/t0", baseSuffix)},
 		Obs: obsRuns, Oracle: oracle}
+	if hc.Shape != "" {
+		cs.Input.(map[string]interface{})["shape"] = hc.Shape
+	}
 	cs.Finding = healFinding(hc, oracle)
 	if group != "" {
 		cs.Coq = healCoq(hc, sig, runs)
@@ -956,6 +1005,16 @@ func describe(n hNode) string {
 	return n.Kind
 }
 
+// clipList keeps the JSON line of a case with thousands of entries readable: the first entries
+// and the count (such a case is regenerated from its seed and its "shape")
+func clipList(xs []string) []string {
+	const keep = 60
+	if len(xs) <= keep {
+		return xs
+	}
+	return append(append([]string(nil), xs[:keep]...), fmt.Sprintf("... %d more (%d in all)", len(xs)-keep, len(xs)))
+}
+
 func containerSummary(sig *pwr.SignatureInfo) map[string]interface{} {
 	var d, l, f []string
 	for _, x := range sig.Container.Dirs {
@@ -967,7 +1026,8 @@ func containerSummary(sig *pwr.SignatureInfo) map[string]interface{} {
 	for _, x := range sig.Container.Files {
 		f = append(f, x.Path)
 	}
-	return map[string]interface{}{"dirs": d, "symlinks": l, "files": f}
+	return map[string]interface{}{"dirs": clipList(d), "symlinks": clipList(l), "files": clipList(f),
+		"counts": []int{len(d), len(l), len(f)}}
 }
 
 // healFinding: matchers of known findings (none at present: both defects found here were fixed)
@@ -1058,9 +1118,27 @@ func healCorpus() []*healCase {
 		"l2": hNode{Kind: "link", Dest: "d0//f0"}}
 	out = append(out, &healCase{Class: "corpus/oddlink-oracle-only-root-missing", Signed: s8, Damages: []string{"root-missing"}, Damaged: hTree{}})
 	out = append(out, &healCase{Class: "corpus/oddlink-oracle-only-valid", Signed: s8, Damaged: validTree(s8)})
+	// the archive at a location with commas in it (the healer spec is "archive,<location>"): files
+	// to rewrite (the archive is opened when the first file is), a valid build, links and dirs only
+	out = append(out, &healCase{Class: "corpus/archive-path-with-commas", Signed: s5, Where: "game,linux,v2/build.zip",
+		Damages: []string{"retarget:l1", "emptied:d0/f2", "delete:f1"},
+		Damaged: hTree{"t0": dir, "t0/d0": dir, "t0/d0/l0": hNode{Kind: "link", Dest: "../f1"},
+			"t0/l1": hNode{Kind: "link", Dest: "n2"}, "t0/d0/f2": file(""), "t0/f3": file("")}})
+	out = append(out, &healCase{Class: "corpus/archive-path-with-commas-valid", Signed: s5, Where: "q?v=1,2&w=3/ ,a/b.zip,", Damaged: validTree(s5)})
+	out = append(out, &healCase{Class: "corpus/archive-path-with-commas-root-missing", Signed: s1, Where: ",/archive,build.zip",
+		Damages: []string{"root-missing"}, Damaged: hTree{}})
+	out = append(out, &healCase{Class: "corpus/archive-url-with-commas", Signed: s6, Loc: "http",
+		Damages: []string{"blockwise:d0/f0 flips@10 +8", "delete:f1"},
+		Damaged: hTree{"t0": dir, "t0/d0": dir, "t0/d0/f0": hNode{Kind: "file", Data: bad}}})
+	out = append(out, &healCase{Class: "corpus/archive-relative-path-with-commas", Signed: s1, Where: "a,b/build,v2.zip", Loc: "rel",
+		Damages: []string{"dir->file:d0"},
+		Damaged: hTree{"t0": dir, "t0/d0": file("was a directory"), "t0/f1": file("x")}})
 	for _, hc := range out {
 		hc.Procs = []int{1, 2, 16}
 	}
+	// more directories and symlinks than the wound channel has slots, target missing
+	out = append(out, genManyCase(lib.NewRng(6008), 0))
+	out[len(out)-1].Class = "corpus/" + out[len(out)-1].Class
 	return out
 }
 
@@ -1279,50 +1357,348 @@ func genOddLinkCase(r *lib.Rng, j int) *healCase {
 	return hc
 }
 
+// ---------- where the archive lives ----------
+
+// Directory names that are legal on the filesystem and harmless in an eos location (httpkit's
+// eos.Open passes the location through url.Parse before falling back to os.Open: an invalid
+// '%' escape or a control character is refused there, so those are left out), but that a parser
+// of the spec "archive,<location>" - or of the location - could mangle.
+var healOddDirs = []string{
+	"game,linux,v2", "a,b", ",", "x,", ",x", "a,,b", "archive,", "manifest,archive,", "UPPER,lower",
+	"with space", " lead", "trail ", "q?v=1,2&w=3", "frag#1,2", "semi;colon", "col:on", "eq=,=",
+	"ünï,cødé", "%20,%2C", "plus+,", "[br],(ack)", "back\\slash,", "dot.,.d", "..,", "~,'\"",
+}
+
+var healOddZips = []string{"build.zip", "build.zip", "build,v2.zip", "b.zip,", ",.zip", "archive,build.zip", "b u,i l d", "build.zip?x=1,2#y"}
+
+// healServe makes the archive available on a loopback HTTP server (range requests supported) at a
+// URL with commas in a path segment and in the query values, as signed download URLs have.
+var healHTTP struct {
+	sync.Mutex
+	srv   *httptest.Server
+	files map[string]string
+}
+
+func healServe(zipPath string, idx int) (string, func(), error) {
+	h := &healHTTP
+	h.Lock()
+	defer h.Unlock()
+	if h.srv == nil {
+		h.files = map[string]string{}
+		h.srv = httptest.NewServer(http.HandlerFunc(func(w http.ResponseWriter, req *http.Request) {
+			parts := strings.SplitN(strings.TrimPrefix(req.URL.Path, "/"), "/", 2)
+			h.Lock()
+			p, ok := h.files[parts[0]]
+			h.Unlock()
+			f, err := os.Open(p)
+			if !ok || err != nil {
+				http.NotFound(w, req)
+				return
+			}
+			defer f.Close()
+			http.ServeContent(w, req, "build.zip", time.Time{}, f)
+		}))
+	}
+	key := fmt.Sprintf("c06-%d", idx)
+	h.files[key] = zipPath
+	forms := []string{"game,linux,v2/build.zip?sig=a,b&exp=1,2", "build,v2.zip", "b/a,,b/c.zip?k=,", "build.zip?parts=1,2,3"}
+	url := fmt.Sprintf("%s/%s/%s", h.srv.URL, key, forms[idx%len(forms)])
+	return url, func() { h.Lock(); delete(h.files, key); h.Unlock() }, nil
+}
+
+// oddWhere: a location for the archive with one or two odd directory names and an odd file name
+func oddWhere(r *lib.Rng) string {
+	w := healOddDirs[r.Intn(len(healOddDirs))]
+	if r.Chance(1, 3) {
+		w += "/" + healOddDirs[r.Intn(len(healOddDirs))]
+	}
+	return w + "/" + healOddZips[r.Intn(len(healOddZips))]
+}
+
+// ---------- builds with more entries than the wound channel has slots ----------
+
+// woundSlots: capacity of ValidatorContext.Wounds (pwr/validator.go)
+const woundSlots = 1024
+
+type manyOpts struct {
+	Dirs, Links, Files int
+	Tops               int // number of top-level directories (everything else is below them)
+	Depth              int // largest nesting depth
+}
+
+// genManyBuild: Dirs directories (Tops of them at top level, the others below, up to Depth
+// levels), Links symlinks and Files small files spread over them.
+func genManyBuild(r *lib.Rng, o manyOpts) hTree {
+	t := hTree{}
+	type dd struct {
+		p     string
+		depth int
+	}
+	var dirs []dd
+	for i := 0; i < o.Dirs; i++ {
+		if i < o.Tops || len(dirs) == 0 {
+			p := fmt.Sprintf("d%d", i)
+			t[p] = hNode{Kind: "dir"}
+			dirs = append(dirs, dd{p, 1})
+			continue
+		}
+		par := dirs[r.Intn(len(dirs))]
+		for tries := 0; par.depth >= o.Depth && tries < 50; tries++ {
+			par = dirs[r.Intn(len(dirs))]
+		}
+		p := fmt.Sprintf("%s/d%d", par.p, i)
+		t[p] = hNode{Kind: "dir"}
+		dirs = append(dirs, dd{p, par.depth + 1})
+	}
+	where := func() string {
+		if len(dirs) == 0 {
+			return ""
+		}
+		return dirs[r.Intn(len(dirs))].p
+	}
+	join := func(d, n string) string {
+		if d == "" {
+			return n
+		}
+		return d + "/" + n
+	}
+	var files []string
+	for i := 0; i < o.Files; i++ {
+		p := join(where(), fmt.Sprintf("f%d", i))
+		size := []int{0, 1, 17, 100}[r.Intn(4)]
+		if i == 0 {
+			size = healBS + 1
+		}
+		t[p] = hNode{Kind: "file", Data: structuredContent(r, size)}
+		files = append(files, p)
+	}
+	for i := 0; i < o.Links; i++ {
+		d := where()
+		var dest string
+		switch k := r.Intn(3); {
+		case k == 0 && len(files) > 0:
+			dest = relDest(d, files[r.Intn(len(files))])
+		case k == 1 && len(dirs) > 0:
+			dest = relDest(d, dirs[r.Intn(len(dirs))].p)
+		default:
+			dest = fmt.Sprintf("n%d", r.Intn(10))
+		}
+		t[join(d, fmt.Sprintf("l%d", i))] = hNode{Kind: "link", Dest: dest}
+	}
+	return t
+}
+
+// genManyCase: the number of wounds of one kind against the 1024 slots of the wound channel
+// (validator.go) - the directory and symlink passes of the validator send all their wounds before
+// the first file is looked at, the file pass sends its wounds while the healer is already
+// rewriting files.  Shapes in turn: (0) directories + symlinks = slots + 1 .. slots + 300, target
+// missing; (1) everything below ONE top-level directory that is replaced by a file / symlink /
+// removed (one swap hides more than 1024 entries); (2) more than 1024 files, target empty;
+// (3) more than 1024 symlinks in a few directories, every one deleted or retargeted; (4) more
+// than 1024 directories, every leaf directory removed and every top-level directory swapped;
+// (5) exactly slots / slots + 1 directory and symlink wounds; (6) more than 1024 of each kind,
+// target missing; (7) more than 1024 files, every one deleted / emptied / extended / flipped.
+// Oracle only: thousands of entries under 24 schedules are out of reach of the model.
+func genManyCase(r *lib.Rng, j int) *healCase {
+	over := func() int { return woundSlots + []int{1, 2, 7, 76, 300}[r.Intn(5)] }
+	var o manyOpts
+	shape := j % 8
+	switch shape {
+	case 0:
+		nl := r.Range(0, 60)
+		o = manyOpts{Dirs: over() - nl, Links: nl, Files: r.Range(1, 40), Tops: r.Range(1, 40), Depth: 4}
+	case 1:
+		o = manyOpts{Dirs: over(), Links: r.Range(0, 40), Files: r.Range(1, 40), Tops: 1, Depth: 5}
+	case 2:
+		o = manyOpts{Dirs: r.Range(0, 20), Links: r.Range(0, 5), Files: over(), Tops: 3, Depth: 3}
+	case 3:
+		o = manyOpts{Dirs: r.Range(1, 20), Links: over(), Files: r.Range(1, 10), Tops: 3, Depth: 3}
+	case 4:
+		o = manyOpts{Dirs: over(), Links: r.Range(0, 10), Files: r.Range(1, 40), Tops: r.Range(2, 30), Depth: 3}
+	case 5:
+		nl := r.Range(0, 30)
+		o = manyOpts{Dirs: woundSlots + r.Intn(2) - nl, Links: nl, Files: r.Range(1, 20), Tops: r.Range(1, 40), Depth: 4}
+	case 6:
+		o = manyOpts{Dirs: over(), Links: over(), Files: over(), Tops: r.Range(1, 40), Depth: 4}
+	default:
+		o = manyOpts{Dirs: r.Range(1, 30), Links: r.Range(0, 5), Files: over(), Tops: 4, Depth: 3}
+	}
+	signed := genManyBuild(r, o)
+	hc := &healCase{Signed: signed, Procs: []int{1, 2, 16}, OracleOnly: true,
+		Shape: fmt.Sprintf("genManyCase j=%d: %d dirs (%d at top level, depth <= %d), %d symlinks, %d files", j, o.Dirs, o.Tops, o.Depth, o.Links, o.Files)}
+	cur := validTree(signed)
+	asideN := 0
+	// every: one damage of the given kinds to every (still usable) entry of the given kind
+	every := func(kind string, dmg func(p string)) {
+		for _, p := range signed.paths() {
+			if n, ok := cur["t0/"+p]; ok && signed[p].Kind == kind && n.Kind == kind {
+				dmg(p)
+			}
+		}
+	}
+	swapDir := func(p string) {
+		tp := "t0/" + p
+		switch r.Intn(4) {
+		case 0:
+			cur.removeTree(tp)
+			cur[tp] = hNode{Kind: "file", Data: []byte("was a directory")}
+		case 1:
+			cur.removeTree(tp)
+			cur[tp] = hNode{Kind: "link", Dest: "n78"}
+		case 2:
+			asideN++
+			a := fmt.Sprintf("z%d", asideN)
+			cur.moveTree(tp, a)
+			cur[tp] = hNode{Kind: "link", Dest: relDest(tp[:strings.LastIndex(tp, "/")], a)}
+		default:
+			cur.removeTree(tp)
+		}
+	}
+	switch shape {
+	case 0, 6:
+		hc.Class = "many-oracle-only/dirs+links>slots/root-missing"
+		if shape == 6 {
+			hc.Class = "many-oracle-only/all-kinds>slots/root-missing"
+		}
+		cur = hTree{}
+		hc.Damages = []string{"root-missing"}
+	case 1:
+		hc.Class = "many-oracle-only/one-swap-hides>slots"
+		swapDir("d0")
+		hc.Damages = []string{"dir->other:d0 (everything is below it)"}
+	case 2:
+		hc.Class = "many-oracle-only/files>slots/root-empty"
+		cur = hTree{"t0": hNode{Kind: "dir"}}
+		hc.Damages = []string{"root-empty"}
+	case 3:
+		hc.Class = "many-oracle-only/links>slots/every-link"
+		every("link", func(p string) {
+			if r.Bool() {
+				delete(cur, "t0/"+p)
+				hc.Damages = append(hc.Damages, "unlink:"+p)
+			} else {
+				cur["t0/"+p] = hNode{Kind: "link", Dest: fmt.Sprintf("n%d", 10+r.Intn(10))}
+				hc.Damages = append(hc.Damages, "retarget:"+p)
+			}
+		})
+	case 4:
+		hc.Class = "many-oracle-only/dirs>slots/leaves+tops"
+		hasChild := map[string]bool{}
+		for p := range signed {
+			if i := strings.LastIndex(p, "/"); i >= 0 {
+				hasChild[p[:i]] = true
+			}
+		}
+		every("dir", func(p string) {
+			switch {
+			case !hasChild[p]:
+				delete(cur, "t0/"+p)
+				hc.Damages = append(hc.Damages, "rmdir:"+p)
+			case !strings.Contains(p, "/") && r.Bool():
+				swapDir(p)
+				hc.Damages = append(hc.Damages, "dir->other:"+p)
+			}
+		})
+	case 5:
+		hc.Class = fmt.Sprintf("many-oracle-only/dirs+links=slots%+d/root-missing", o.Dirs+o.Links-woundSlots)
+		cur = hTree{}
+		hc.Damages = []string{"root-missing"}
+	default:
+		hc.Class = "many-oracle-only/files>slots/every-file"
+		every("file", func(p string) {
+			d := cur["t0/"+p].Data
+			switch k := r.Intn(4); {
+			case k == 0:
+				delete(cur, "t0/"+p)
+				hc.Damages = append(hc.Damages, "delete:"+p)
+			case k == 1 && len(d) > 0:
+				cur["t0/"+p] = hNode{Kind: "file"}
+				hc.Damages = append(hc.Damages, "emptied:"+p)
+			case k == 2 && len(d) > 0:
+				cur["t0/"+p] = hNode{Kind: "file", Data: flipAt(d, r.Intn(len(d)))}
+				hc.Damages = append(hc.Damages, "flip:"+p)
+			default:
+				cur["t0/"+p] = hNode{Kind: "file", Data: append(append([]byte(nil), d...), 'x')}
+				hc.Damages = append(hc.Damages, "extend:"+p+"+1")
+			}
+		})
+	}
+	hc.Damaged = cur
+	return hc
+}
+
 func runC06(c *Ctx) error {
 	if os.Getenv("WHARFOBS_C06_ONLY") == "fsmodel" { // debugging aid
 		return runFSModel(c)
 	}
 	idx := 0
+	hung := false
+	run := func(hc *healCase) error {
+		err := runHealCase(c, hc, idx)
+		idx++
+		hung = hung || hc.Hung
+		return err
+	}
+	// place: half of the generated cases keep their archive at a location with commas, blanks, '?', ...;
+	// a quarter name it by a relative path, an eighth by a URL
+	place := func(hc *healCase, r *lib.Rng) *healCase {
+		if r.Chance(1, 2) {
+			hc.Where = oddWhere(r)
+		}
+		switch r.Intn(8) {
+		case 0, 1:
+			hc.Loc = "rel"
+		case 2:
+			hc.Loc = "http"
+		}
+		return hc
+	}
 	for _, hc := range healCorpus() {
-		if err := runHealCase(c, hc, idx); err != nil {
+		if err := run(hc); err != nil {
 			return err
 		}
-		idx++
 	}
 	r := c.Rng.Fork()
 	n := c.N(108, 800)
 	for i := 0; i < n; i++ {
 		cr := r.Fork()
-		hc := genHealCase(cr, i)
-		if err := runHealCase(c, hc, idx); err != nil {
+		if err := run(place(genHealCase(cr, i), cr)); err != nil {
 			return err
 		}
-		idx++
 	}
 	// block-wise damage patterns inside multi-block files
 	rb := c.Rng.Fork()
 	for j, m := 0, c.N(11, 96); j < m; j++ {
-		if err := runHealCase(c, genBlockwiseCase(rb.Fork(), j), idx); err != nil {
+		cr := rb.Fork()
+		if err := run(place(genBlockwiseCase(cr, j), cr)); err != nil {
 			return err
 		}
-		idx++
 	}
 	// runs of damaged blocks longer than the largest wound
 	rg := c.Rng.Fork()
 	for j, m := 0, c.N(2, 12); j < m; j++ {
-		if err := runHealCase(c, genBigFileCase(rg.Fork(), j), idx); err != nil {
+		cr := rg.Fork()
+		if err := run(place(genBigFileCase(cr, j), cr)); err != nil {
 			return err
 		}
-		idx++
 	}
 	// symlinks whose signed destination is not in canonical form
 	rl := c.Rng.Fork()
 	for j, m := 0, c.N(12, 96); j < m; j++ {
-		if err := runHealCase(c, genOddLinkCase(rl.Fork(), j), idx); err != nil {
+		cr := rl.Fork()
+		if err := run(place(genOddLinkCase(cr, j), cr)); err != nil {
 			return err
 		}
-		idx++
+	}
+	// more wounds of one kind than the wound channel has slots (shape 0 is also a corpus case).
+	// Every hang costs the 60 s deadline and leaves goroutines of the implementation behind: after
+	// the first one the rest of this stream is skipped.
+	rm := c.Rng.Fork()
+	for j, m := 1, c.N(4, 32); j <= m && !hung; j++ {
+		cr := rm.Fork()
+		if err := run(place(genManyCase(cr, j), cr)); err != nil {
+			return err
+		}
 	}
 	return runFSModel(c)
 }
